@@ -140,6 +140,14 @@ def bswap64(e):
 
 
 GS = [("id", lambda e: e), ("bswap", bswap64)]
+GS_COQ = ["RId %d", "RBswap %d"]      # the same choices as constructors of Obl/MWordSpec.rentry
+
+
+def coq_desc(cfn, kind, n, rand, be="B64", front="FLlvm", raw=True, maxs=None):
+    """the descriptor from which Obl/MWordSpec.v builds the observation and specification programs itself (std_post / std_spec);
+    Obl/FnObl.fn_obl_ok checks that fo_post / fo_spec printed next to it are syntactically those"""
+    return '{| fd_fn := "%s"; fd_kind := %s; fd_be := %s; fd_front := %s; fd_raw := %s; fd_n := %d; fd_max := %d; fd_rand := [%s] |}' % (
+        cfn, kind, be, front, "true" if raw else "false", n, MAXS if maxs is None else maxs, "; ".join(rand))
 
 
 def obligations(n):
@@ -152,18 +160,18 @@ def obligations(n):
     # the rotation of its own fresh word alone
     obs.append(("load", [("word", WB, True), ("data", 8, False)], ["word", "data", None],
                 lambda R, g: (prog([value(n, 0)] + [share(0, j) for j in range(1, n)] + sur),
-                              prog([be64(WB)] + [rotr(g(R[j - 1]), 11 * j) for j in range(1, n)] + ["(WConst 8 0)" for _ in sur]))))
+                              prog([be64(WB)] + [rotr(g(R[j - 1]), 11 * j) for j in range(1, n)] + ["(WConst 8 0)" for _ in sur])), "KLoad"))
     # store(data, word)
     obs.append(("store", [("data", 8, True), ("word", WB, False)], ["data", "word"],
-                lambda R, g: (prog(["(WIn %d)" % i for i in range(8)]), prog(bytes_of_be(value(n, 8))))))
+                lambda R, g: (prog(["(WIn %d)" % i for i in range(8)]), prog(bytes_of_be(value(n, 8)))), "KStore"))
     # randomize(dest, src, trng): value preserved; share j moved by its own fresh word
     obs.append(("randomize", [("dest", WB, True), ("src", WB, False)], ["dest", "src", None],
                 lambda R, g: (prog([value(n, 0)] + [share(0, j) for j in range(n)] + sur),
                               prog([value(n, WB)] + [xor_all([share(WB, 0)] + [g(R[j - 1]) for j in range(1, n)])] +
-                                   ["(WXor %s %s)" % (share(WB, j), rotr(g(R[j - 1]), 11 * j)) for j in range(1, n)] + sur))))
+                                   ["(WXor %s %s)" % (share(WB, j), rotr(g(R[j - 1]), 11 * j)) for j in range(1, n)] + sur)), "(KRandomize false)"))
     # xor(dest, src)
     obs.append(("xor", [("dest", WB, True), ("src", WB, False)], ["dest", "src"],
-                lambda R, g: (prog([value(n, 0)] + sur), prog(["(WXor %s %s)" % (value(n, 0), value(n, WB))] + sur))))
+                lambda R, g: (prog([value(n, 0)] + sur), prog(["(WXor %s %s)" % (value(n, 0), value(n, WB))] + sur)), "KXor"))
     return obs
 
 
@@ -179,10 +187,10 @@ def conv_obligations():
             sur = lambda base: ["(WIn %d)" % (base + i) for i in range(8 * n, WB)]
             obs.append((fn, "", [("dest", WB, True), ("src", WB, False)], ["dest", "src", None],
                         lambda R, g, n=n, m=m: (prog([value(n, 0)] + ["(WIn %d)" % i for i in range(8 * n, WB)]),
-                                                prog([value(m, WB)] + ["(WConst 8 0)" for i in range(8 * n, WB)]))))
+                                                prog([value(m, WB)] + ["(WConst 8 0)" for i in range(8 * n, WB)])), ("(KFromX %d false)" % m, n)))
             obs.append((fn, "_inplace", [("word", WB, True)], ["word", "word", None],
                         lambda R, g, n=n, m=m: (prog([value(n, 0)] + ["(WIn %d)" % i for i in range(8 * n, WB)]),
-                                                prog([value(m, 0)] + ["(WConst 8 0)" for i in range(8 * n, WB)]))))
+                                                prog([value(m, 0)] + ["(WConst 8 0)" for i in range(8 * n, WB)])), ("(KFromX %d true)" % m, n)))
     return obs
 
 
@@ -201,19 +209,21 @@ def state_obligations():
                         ["(WXor %s %s)" % (share(KW * w, j), rotr(r(j), 11 * j)) for j in range(1, n)] + \
                         ["(WIn %d)" % (KW * w + i) for i in range(8 * n, KW)]
             return prog(post), prog(spec)
-        obs.append(("ascon_x%d_randomize" % n, "", [("state", 5 * KW, True)], ["state", None], b_rand))
+        obs.append(("ascon_x%d_randomize" % n, "", [("state", 5 * KW, True)], ["state", None], b_rand, ("KStRandomize", n)))
         for m in (2, 3, 4):
             fn = "ascon_x%d_copy_from_x%d" % (n, m)
             obs.append((fn, "", [("dest", 5 * KW, True), ("src", 5 * KW, False)], ["dest", "src", None],
-                        lambda R, g, n=n, m=m: (prog([value(n, KW * w) for w in range(5)]), prog([value(m, 5 * KW + KW * w) for w in range(5)]))))
+                        lambda R, g, n=n, m=m: (prog([value(n, KW * w) for w in range(5)]), prog([value(m, 5 * KW + KW * w) for w in range(5)])),
+                        ("(KStCopy %d false)" % m, n)))
             if n != m:
                 obs.append((fn, "_inplace", [("state", 5 * KW, True)], ["state", "state", None],
-                            lambda R, g, n=n, m=m: (prog([value(n, KW * w) for w in range(5)]), prog([value(m, KW * w) for w in range(5)]))))
+                            lambda R, g, n=n, m=m: (prog([value(n, KW * w) for w in range(5)]), prog([value(m, KW * w) for w in range(5)])),
+                            ("(KStCopy %d true)" % m, n)))
     return obs
 
 
 def settle(s, build):
-    """choose, per random word, how it enters (by concrete evaluation); -> (post, spec, description, cex)"""
+    """choose, per random word, how it enters (by concrete evaluation); -> (post, spec, description, cex, Coq text of the choices)"""
     import itertools
     R = [i for i, d in enumerate(s.in_desc) if d[0] == "rand"]
     combos = [tuple(0 for _ in R), tuple(1 for _ in R)]
@@ -224,15 +234,16 @@ def settle(s, build):
         pick = dict(zip(R, c))
         g = lambda ri: GS[pick[ri]][1]("(WIn %d)" % ri)
         desc = ",".join(GS[x][0] for x in c) or "-"
+        rand = [GS_COQ[x] % ri for ri, x in zip(R, c)]
         try:
             post, spec = build(R, g)
         except IndexError:
-            return None, None, desc, {"error": "the function draws %d random words, fewer than the masking needs" % len(R)}
+            return None, None, desc, {"error": "the function draws %d random words, fewer than the masking needs" % len(R)}, rand
         cex = find_cex(s.b, s.outs, post, spec)
         if cex is None:
-            return post, spec, desc, None
+            return post, spec, desc, None, rand
         if last is None:
-            last = (post, spec, desc, cex)
+            last = (post, spec, desc, cex, rand)
     return last
 
 
@@ -262,7 +273,7 @@ def key_obligations(n, bits):
         spec = vals + [rotr(g(R[w * (n - 1) + j - 1]), 11 * j) for w in range(nw) for j in range(1, n)] + \
                ["(WConst 8 0)" for w in range(nw) for i in surplus(KW * w)]
         return prog(post), prog(spec)
-    obs.append(("init", [("masked", KW * nw, True, False), ("key", kb, False, True)], ["masked", "key"], b_init))
+    obs.append(("init", [("masked", KW * nw, True, False), ("key", kb, False, True)], ["masked", "key"], b_init, "(KKeyInit %d)" % bits))
 
     def b_extract(R, g):
         b = kb   # masked bytes start after the key buffer bytes in the input list
@@ -270,7 +281,7 @@ def key_obligations(n, bits):
         if bits == 160:
             spec += bytes_of_be(value(n, b + 2 * KW))[:4]
         return prog(["(WIn %d)" % i for i in range(kb)]), prog(spec)
-    obs.append(("extract", [("key", kb, True, True), ("masked", KW * nw, False, True)], ["masked", "key"], b_extract))
+    obs.append(("extract", [("key", kb, True, True), ("masked", KW * nw, False, True)], ["masked", "key"], b_extract, "(KKeyExtract %d)" % bits))
 
     # randomize_with_trng(masked, trng): every word keeps its value and every share of it moves by its own
     # fresh random word (n-1 fresh words per key word, in call order)
@@ -283,23 +294,23 @@ def key_obligations(n, bits):
                     ["(WXor %s %s)" % (share(KW * w, j), rotr(r(j), 11 * j)) for j in range(1, n)] + \
                     ["(WIn %d)" % i for i in surplus(KW * w)]
         return prog(post), prog(spec)
-    obs.append(("randomize_with_trng", [("masked", KW * nw, True, True)], ["masked", None], b_rand))
+    obs.append(("randomize_with_trng", [("masked", KW * nw, True, True)], ["masked", None], b_rand, "(KKeyRandomize %d)" % bits))
     return obs
 
 
-def emit(L, names, report, nm, title, s, build):
+def emit(L, names, report, nm, title, s, build, cfn="", kind="KLoad", n=0, front="FLlvm"):
     if any(o is None for o in s.outs):
         print("MISSING kern_mword %s: output left uninitialised" % nm)
         report[nm] = {"title": title, "translated": False, "error": "output left uninitialised"}
         return
-    post, spec, gname, cex = settle(s, build)
+    post, spec, gname, cex, rand = settle(s, build)
     if post is None:
         print("NOTE kern_mword %s: %s" % (nm, cex["error"]))
         report[nm] = {"title": title, "translated": True, "concrete_ok": False, "counterexample": cex}
         # the obligation is emitted as plainly false so that the proof breaks
         post, spec = prog(["(WConst 1 0)"]), prog(["(WConst 1 1)"])
-    L.append("Definition %s : fn_obl := {| fo_name := \"%s\"; fo_widths := [%s]; fo_prog := %s; fo_post := %s; fo_spec := %s |}." %
-             (nm, title, "; ".join(map(str, s.b.in_widths)), s.b.coq_prog(s.outs), post, spec))
+    L.append("Definition %s : fn_obl := {| fo_name := \"%s\"; fo_widths := [%s]; fo_prog := %s; fo_post := %s; fo_spec := %s; fo_desc := %s |}." %
+             (nm, title, "; ".join(map(str, s.b.in_widths)), s.b.coq_prog(s.outs), post, spec, coq_desc(cfn, kind, n, rand, front=front)))
     names.append(nm)
     if nm not in report:
         report[nm] = {"title": title, "translated": True, "random_words": sum(1 for d in s.in_desc if d[0] == "rand"),
@@ -319,7 +330,7 @@ def main(repo, gen):
     names = []
     mod = llvmx.Module(llvmx.compile_ll(os.path.join(repo, "src", "masking", "ascon-masked-word-c64.c"), defs=["ASCON_FORCE_C64"], incs=incs))
     for n in (2, 3, 4):
-        for (fn, regs, args, build) in obligations(n):
+        for (fn, regs, args, build, kind) in obligations(n):
             full = "ascon_masked_word_x%d_%s" % (n, fn)
             nm = "mw_c64_x%d_%s" % (n, fn)
             regions = {name: {"size": size, "symbolic": True, "writable": wr} for (name, size, wr) in regs}
@@ -327,8 +338,8 @@ def main(repo, gen):
                 s = llvmx.Exec(mod, "@" + full, [("ptr", a, 0) for a in args], regions, cut=False, rand_fns=rand).run()[0]
             except (Stuck, KeyError) as ex:
                 print("MISSING kern_mword %s: %s" % (nm, ex)); report[nm] = {"title": full, "translated": False, "error": str(ex)}; continue
-            emit(L, names, report, nm, full + " [c64]", s, build)
-    for (fn, suffix, regs, args, build) in conv_obligations():
+            emit(L, names, report, nm, full + " [c64]", s, build, full, kind, n)
+    for (fn, suffix, regs, args, build, (kind, n)) in conv_obligations():
         full = "ascon_masked_word_" + fn
         nm = "mw_c64_%s%s" % (fn, suffix)
         regions = {name: {"size": size, "symbolic": True, "writable": wr} for (name, size, wr) in regs}
@@ -336,7 +347,7 @@ def main(repo, gen):
             s = llvmx.Exec(mod, "@" + full, [("ptr", a, 0) for a in args], regions, cut=False, rand_fns=rand).run()[0]
         except (Stuck, KeyError) as ex:
             print("MISSING kern_mword %s: %s" % (nm, ex)); report[nm] = {"title": full, "translated": False, "error": str(ex)}; continue
-        emit(L, names, report, nm, full + suffix.replace("_", " ") + " [c64]", s, build)
+        emit(L, names, report, nm, full + suffix.replace("_", " ") + " [c64]", s, build, full, kind, n)
     L.append("Definition mword_c64_obls : list fn_obl := [%s]." % "; ".join(names))
     # --- x86-64 assembly word toolkit
     names = []
@@ -349,7 +360,7 @@ def main(repo, gen):
         print("MISSING kern_mword x86: %s" % ex)
     if items:
         for n in (2, 3, 4):
-            for (fn, regs, args, build) in obligations(n):
+            for (fn, regs, args, build, kind) in obligations(n):
                 full = "ascon_masked_word_x%d_%s" % (n, fn)
                 nm = "mw_x86_x%d_%s" % (n, fn)
                 regions = {name: {"size": size, "symbolic": True, "writable": wr} for (name, size, wr) in regs}
@@ -358,8 +369,8 @@ def main(repo, gen):
                     s = asm_x86.X86(items, tables, full, ri, regions, rand_fns={"ascon_trng_generate_64"}).run()[0]
                 except (Stuck, KeyError) as ex:
                     print("MISSING kern_mword %s: %s" % (nm, ex)); report[nm] = {"title": full, "translated": False, "error": str(ex)}; continue
-                emit(L, names, report, nm, full + " [x86-64 asm]", s, build)
-        for (fn, suffix, regs, args, build) in conv_obligations():
+                emit(L, names, report, nm, full + " [x86-64 asm]", s, build, full, kind, n, "FX86")
+        for (fn, suffix, regs, args, build, (kind, n)) in conv_obligations():
             full = "ascon_masked_word_" + fn
             nm = "mw_x86_%s%s" % (fn, suffix)
             regions = {name: {"size": size, "symbolic": True, "writable": wr} for (name, size, wr) in regs}
@@ -368,7 +379,7 @@ def main(repo, gen):
                 s = asm_x86.X86(items, tables, full, ri, regions, rand_fns={"ascon_trng_generate_64"}).run()[0]
             except (Stuck, KeyError) as ex:
                 print("MISSING kern_mword %s: %s" % (nm, ex)); report[nm] = {"title": full, "translated": False, "error": str(ex)}; continue
-            emit(L, names, report, nm, full + suffix.replace("_", " ") + " [x86-64 asm]", s, build)
+            emit(L, names, report, nm, full + suffix.replace("_", " ") + " [x86-64 asm]", s, build, full, kind, n, "FX86")
     L.append("Definition mword_x86_obls : list fn_obl := [%s]." % "; ".join(names))
     # --- masked keys over the C64 word toolkit, KEY_SHARES = 2, 3, 4
     names = []
@@ -378,7 +389,7 @@ def main(repo, gen):
         for n in (2, 3, 4):
             mod = llvmx.Module(llvmx.compile_ll(w, defs=["ASCON_FORCE_C64", "ASCON_MASKED_KEY_SHARES=%d" % n], incs=incs))
             for bits in (128, 160):
-                for (fn, regs, args, build) in key_obligations(n, bits):
+                for (fn, regs, args, build, kind) in key_obligations(n, bits):
                     full = "ascon_masked_key_%d_%s" % (bits, fn)
                     nm = "mk%d_x%d_%s" % (bits, n, fn)
                     regions = {name: {"size": size, "symbolic": sym, "writable": wr} for (name, size, wr, sym) in regs}
@@ -386,7 +397,7 @@ def main(repo, gen):
                         s = llvmx.Exec(mod, "@" + full, [("ptr", a, 0) for a in args], regions, cut=False, rand_fns=rand, callbacks=cb).run()[0]
                     except (Stuck, KeyError) as ex:
                         print("MISSING kern_mword %s: %s" % (nm, ex)); report[nm] = {"title": full, "translated": False, "error": str(ex)}; continue
-                    emit(L, names, report, nm, "%s (KEY_SHARES=%d)" % (full, n), s, build)
+                    emit(L, names, report, nm, "%s (KEY_SHARES=%d)" % (full, n), s, build, full, kind, n)
     L.append("Definition mkey_obls : list fn_obl := [%s]." % "; ".join(names))
     # --- masked states over the C64 word toolkit
     names = []
@@ -394,14 +405,14 @@ def main(repo, gen):
         w = os.path.join(td, "mstate.c")
         open(w, "w").write('#include "masking/ascon-masked-word-c64.c"\n#include "masking/ascon-masked-state.c"\n')
         mod = llvmx.Module(llvmx.compile_ll(w, defs=["ASCON_FORCE_C64"], incs=incs))
-        for (fn, suffix, regs, args, build) in state_obligations():
+        for (fn, suffix, regs, args, build, (kind, n)) in state_obligations():
             nm = "ms_%s%s" % (fn[6:], suffix)
             regions = {name: {"size": size, "symbolic": True, "writable": wr} for (name, size, wr) in regs}
             try:
                 s = llvmx.Exec(mod, "@" + fn, [("ptr", a, 0) for a in args], regions, cut=False, rand_fns=rand, callbacks=cb).run()[0]
             except (Stuck, KeyError) as ex:
                 print("MISSING kern_mword %s: %s" % (nm, ex)); report[nm] = {"title": fn, "translated": False, "error": str(ex)}; continue
-            emit(L, names, report, nm, fn + suffix.replace("_", " ") + " [c64]", s, build)
+            emit(L, names, report, nm, fn + suffix.replace("_", " ") + " [c64]", s, build, fn, kind, n)
     L.append("Definition mstate_obls : list fn_obl := [%s]." % "; ".join(names))
     L.append("Definition mword_results : list (string * bool) := map (fun o => (fo_name o, fn_obl_ok o)) (mword_c64_obls ++ mword_x86_obls ++ mkey_obls ++ mstate_obls).")
     write_if_changed(os.path.join(gen, "MWord.v"), "\n".join(L) + "\n")
